@@ -161,6 +161,55 @@ for desc, which, ts, script, want in cases:
                                          "items whose identifier raises when read": broken},
                    expected={"items": want, "lock depth at each yield": [0] * want})
         break
+def abort_check():
+    """native: the REAL Association.abort / _handle_no_response on a stub `self`: how many A-ABORTs are handed to the ACSE, with
+    which source, what is notified, whether the association is killed"""
+    import types
+    import pynetdicom.association as am
+    for already in (False, True):
+        for released in (False, True):
+            for block in (True, False):
+                log = []
+                me = types.SimpleNamespace(_sent_abort=already, is_released=released,
+                                           _reactor_checkpoint=types.SimpleNamespace(set=lambda: log.append("checkpoint.set")),
+                                           acse=types.SimpleNamespace(send_abort=lambda src: log.append(f"send_abort:{src}")),
+                                           kill=lambda: log.append("kill"),
+                                           dul=types.SimpleNamespace(socket=types.SimpleNamespace(_shutdown_socket=lambda: log.append("shutdown"))))
+                orig, osleep = am.evt.trigger, am.time.sleep
+                am.evt.trigger = lambda a, ev, attrs=None: log.append(ev.name)
+                am.time.sleep = lambda t: None
+                try:
+                    try:
+                        am.Association._abort_blocking(me, block)
+                    except Exception as e:
+                        log.append(repr(e))
+                finally:
+                    am.evt.trigger, am.time.sleep = orig, osleep
+                if already or released:
+                    want = []
+                else:
+                    want = ["checkpoint.set", "send_abort:0", "EVT_ABORTED"] + (["kill", "shutdown"] if block else [])
+                if log != want or (not (already or released) and me._sent_abort is not True):
+                    return dict(input={"abort already sent": already, "released": released, "block": block}, observed=log, expected=want)
+    for peer in (False, True):
+        for prov in (False, True):
+            for est in (False, True):
+                log = []
+                me = types.SimpleNamespace(is_established=est, abort=lambda: log.append("abort"),
+                                           acse=types.SimpleNamespace(is_aborted=lambda kind=None: {"a-abort": peer, "a-p-abort": prov}[kind]))
+                am.Association._handle_no_response(me)
+                want = ["abort"] if (est and not peer and not prov) else []
+                if log != want:
+                    return dict(input={"peer aborted": peer, "provider aborted": prov, "established": est}, observed=log, expected=want)
+    return None
+
+
+if "Association.abort" in rec.get("id", "") or "_handle_no_response" in rec.get("id", "") or rec.get("id", "").endswith("cross-check"):
+    _b = abort_check()
+    if _b:
+        done(True, **_b)
+    if "Association.abort" in rec.get("id", "") or "_handle_no_response" in rec.get("id", ""):
+        done(False, note="the real abort / _handle_no_response behaved as the contract says on every flag combination")
 if bad:
     done(True, **bad)
 done(False, note="every scripted response sequence was surfaced once per response without holding the lock")
